@@ -81,7 +81,7 @@ def run(tier, seed):
         raise vlib.InfraError("MP design check failed:\n" + mc["out"][-3000:])
     if vlib.tlc_check("MP_MC.tla", "cfg/MP_reach.cfg", workers=4, coverage=False)["ok"]:
         raise vlib.InfraError("vacuity: ReachStale not reachable")
-    nwalk = 400 if tier == "quick" else 6000
+    nwalk = 400 if tier == "quick" else 2500
     execs = []
     for np_, cfg in [(2, "cfg/MP_sim2.cfg"), (3, "cfg/MP_sim.cfg")] + ([(4, "cfg/MP_sim4.cfg")] if tier != "quick" else []):
         ws = walks("MP_MC.tla", cfg, nwalk, 12, seed + np_)
